@@ -6,8 +6,9 @@ CONSTANTS
   MaxSteps = 6
   Modes = {"normal", "coro"}
   Typed = FALSE
-  Ops = {"ConstructEmpty", "MoveConstruct", "AddHandle", "AddTo", "MergeShl", "Pop", "Clear", "Destroy", "CoAwait"}
+  Ops = {"ConstructEmpty", "AddSelf", "MoveConstruct", "AddHandle", "AddTo", "MergeShl", "Pop", "Clear", "Destroy", "CoAwait"}
+  Fixed = TRUE
   Targets = {12, 24, 25, 40, 48}
-INVARIANTS TypeOK RepOK Conservation NoDoubleResume NoLeak
-PROPERTIES InlineNoAlloc MovedFromIsEmpty EmptyResumesNothing ValuePreserved ResumeOrder QueueFIFO
+INVARIANTS TypeOK RepOK NoDoubleResume Conservation NoLeak
+PROPERTIES InlineNoAlloc MovedFromIsEmpty EmptyResumesNothing ValuePreserved ReadsAgree ResumeOrder QueueFIFO
 CHECK_DEADLOCK FALSE
